@@ -24,6 +24,27 @@ func TestRandomFiles(t *testing.T) {
 	}()
 	r := newRunner(t, out)
 	defer r.finish()
+	randomFiles(t, out, r)
+}
+
+// TestModelIndependent runs the two drivers that need no TLC output (round trip, random files) in one
+// process, so that checks/C42.py can run them while TLC is working.
+func TestModelIndependent(t *testing.T) {
+	out := vutil.NewOut()
+	defer func() {
+		if err := out.Write(); err != nil {
+			t.Fatal(err)
+		}
+	}()
+	r := newRunner(t, out)
+	defer r.finish()
+	roundTrip(t, out, r)
+	out.Extra["roundtrip_ssh_keygen_runs"] = r.kgRuns
+	out.Extra["roundtrip_evaluations"] = out.Evaluations
+	randomFiles(t, out, r)
+}
+
+func randomFiles(t *testing.T, out *vutil.Out, r *runner) {
 	rng := vutil.Rand(4200)
 	n := 250
 	if vutil.Thorough() {
@@ -123,6 +144,10 @@ func TestRoundTrip(t *testing.T) {
 	}()
 	r := newRunner(t, out)
 	defer r.finish()
+	roundTrip(t, out, r)
+}
+
+func roundTrip(t *testing.T, out *vutil.Out, r *runner) {
 	rng := vutil.Rand(4201)
 	type ad struct{ host, port string }
 	var addrs []ad
